@@ -129,6 +129,7 @@ func ruleC18(w *World) {
 	w.floor("C18.R1", 8)
 	w.floor("C18.R2", 8)
 	w.floor("C18.R4", 3)
+	w.floor("C18.R5", 1)
 	// anchor: implementation of ThresholdSignatureInspector that has a sync mutex field
 	var T *types.Named
 	var lockFld *types.Var
@@ -145,10 +146,39 @@ func ruleC18(w *World) {
 		return
 	}
 	la := &lockAnalysis{w: w, T: T, lockFld: lockFld, entry: map[*ssa.Function]int{}, at: map[ssa.Instruction]int{}, acquires: map[*ssa.Function][]ssa.Instruction{}}
+	// the types that embed the inspector (the participant) share its mutex: their own fields are state of the same
+	// concurrently used object
+	var embedders []*types.Named
+	if p := w.ByPath[rootPath]; p != nil {
+		for _, n := range p.Types.Scope().Names() {
+			tn, ok := p.Types.Scope().Lookup(n).(*types.TypeName)
+			if !ok {
+				continue
+			}
+			nt, ok := tn.Type().(*types.Named)
+			if !ok || nt == T {
+				continue
+			}
+			if st, ok := nt.Underlying().(*types.Struct); ok {
+				for i := 0; i < st.NumFields(); i++ {
+					if st.Field(i).Embedded() && types.Identical(deref(st.Field(i).Type()), T) {
+						embedders = append(embedders, nt)
+					}
+				}
+			}
+		}
+	}
 	fieldOfT := func(v *types.Var) bool {
 		for _, f := range structFields(T) {
 			if f == v {
 				return true
+			}
+		}
+		for _, e := range embedders {
+			for _, f := range structFields(e) {
+				if f == v && !(f.Embedded() && types.Identical(deref(f.Type()), T)) {
+					return true
+				}
 			}
 		}
 		return false
@@ -170,6 +200,11 @@ func ruleC18(w *World) {
 			case *ssa.Alloc:
 				if types.Identical(deref(x.Type()), T) {
 					ctor[fn] = true
+				}
+				for _, e := range embedders {
+					if types.Identical(deref(x.Type()), e) {
+						ctor[fn] = true
+					}
 				}
 			}
 		})
@@ -547,6 +582,123 @@ func ruleC18(w *World) {
 		}
 	}
 	w.ok("C18.R3", T.Obj().Name()+"/immutable-fields", T.Obj().Pos(), fmt.Sprintf("fields never written outside the constructor: %v (any new writer makes the field lock-protected and its unlocked readers violations of R1)", imm))
+	// R5: objects the unguarded fields refer to are themselves stateless under use: for every interface-typed field that
+	// is only written by the constructor (the hasher the lock-free helpers hand to Verify), every module type the
+	// constructor can store there has methods that write nothing reachable from their receiver — otherwise two helpers
+	// running without the lock share mutable state through an `immutable` field
+	{
+		ea := w.effects()
+		var dyn func(v ssa.Value, d int, out map[*types.Named]bool) bool
+		dyn = func(v ssa.Value, d int, out map[*types.Named]bool) bool {
+			if d > 5 {
+				return false
+			}
+			switch x := v.(type) {
+			case *ssa.MakeInterface:
+				if n, ok := deref(x.X.Type()).(*types.Named); ok {
+					out[n] = true
+					return true
+				}
+				return false
+			case *ssa.ChangeInterface:
+				return dyn(x.X, d+1, out)
+			case *ssa.Phi:
+				for _, e := range x.Edges {
+					if !dyn(e, d+1, out) {
+						return false
+					}
+				}
+				return true
+			case *ssa.Const:
+				return true // nil
+			case *ssa.Extract:
+				if c, ok := x.Tuple.(*ssa.Call); ok {
+					if f := c.Call.StaticCallee(); f != nil && f.Blocks != nil {
+						okAll := true
+						for _, r := range returnsFlat(f) {
+							if x.Index < len(r.Results) && !dyn(r.Results[x.Index], d+1, out) {
+								okAll = false
+							}
+						}
+						return okAll
+					}
+				}
+				return false
+			case *ssa.Call:
+				if f := x.Call.StaticCallee(); f != nil && f.Blocks != nil {
+					okAll := true
+					for _, r := range returnsFlat(f) {
+						if len(r.Results) > 0 && !dyn(r.Results[0], d+1, out) {
+							okAll = false
+						}
+					}
+					return okAll
+				}
+				return false
+			}
+			return false
+		}
+		nobj := 0
+		for _, f := range structFields(T) {
+			if _, g := guarded[f]; g || f == lockFld {
+				continue
+			}
+			it, isIface := f.Type().Underlying().(*types.Interface)
+			if !isIface || it.NumMethods() == 0 {
+				continue
+			}
+			// only interfaces with behaviour that could carry state between calls: hashers
+			hasCompute := false
+			for i := 0; i < it.NumMethods(); i++ {
+				if it.Method(i).Name() == "ComputeHash" {
+					hasCompute = true
+				}
+			}
+			if !hasCompute {
+				continue
+			}
+			for _, a := range accs {
+				if a.fld != f || a.what != "store" {
+					continue
+				}
+				st, ok := a.ins.(*ssa.Store)
+				if !ok {
+					continue
+				}
+				types_ := map[*types.Named]bool{}
+				if !dyn(st.Val, 0, types_) {
+					w.undecided("C18.R5", T.Obj().Name()+"/"+f.Name()+"/dynamic-type", st.Pos(), "the concrete type stored in the unguarded field `"+f.Name()+"` could not be resolved: "+render(st.Val))
+					continue
+				}
+				for tn := range types_ {
+					if tn.Obj().Pkg() == nil || !strings.HasPrefix(tn.Obj().Pkg().Path(), rootPath) {
+						continue
+					}
+					for _, mn := range []string{"ComputeHash", "Size"} {
+						m := w.method(tn, mn)
+						if m == nil || m.Blocks == nil {
+							continue
+						}
+						nobj++
+						bad := ""
+						for _, e := range ea.sharedWrites(m, 0, map[*ssa.Function]bool{}) {
+							if e.Root.kind == rkFresh {
+								continue
+							}
+							if bad == "" {
+								bad = fmt.Sprintf("%s [%s] at %s", e.What, rootDesc(e.Root), w.pos(e.Ins.Pos()))
+							}
+						}
+						w.check(bad == "", "C18.R5", fmt.Sprintf("%s/%s:%s.%s", T.Obj().Name(), f.Name(), tn.Obj().Name(), mn), m.Pos(), "method of the object behind the unguarded field writes only memory of its own activation",
+							"the object stored in the unguarded field `"+f.Name()+"` ("+tn.Obj().Name()+") has a "+mn+" method that writes shared state: "+bad+" — helpers that run without the lock (VerifyShare, VerifyThresholdSignature, …) race on it and can corrupt it for good")
+					}
+				}
+			}
+		}
+		if nobj == 0 {
+			w.undecided("C18.R5", T.Obj().Name()+"/unguarded-objects", T.Obj().Pos(), "no stateless-object obligation could be formed for the unguarded interface fields")
+		}
+	}
 	// R4: sequential facts of the single critical sections
 	nmu := 0
 	addSeen := map[*ssa.Function]bool{}
@@ -575,6 +727,33 @@ func ruleC18(w *World) {
 				}
 				if isEnough(f.Expr) {
 					okEnough = true
+				}
+			}
+			// the update sits in a worker that runs inside its callers' critical section (R2): a guard the worker does not
+			// repeat holds if every call site has it (same critical section: the lock is not released in between)
+			if (!okHas || !okEnough) && a.fn.Object() != nil && !a.fn.Object().Exported() {
+				callers := w.callersOfCached(a.fn)
+				allHas, allEnough, cnt := true, true, 0
+				for _, cs := range callers {
+					if isTestFile(w, cs.Pos()) || len(cs.Parent().Params) == 0 {
+						continue
+					}
+					cnt++
+					crecv := cs.Parent().Params[0].Name()
+					cmap := crecv + "." + a.fld.Name()
+					h, e := false, false
+					for _, f := range w.factsAt(cs) {
+						if strings.HasPrefix(f.Expr, cmap+"[") && strings.HasSuffix(f.Expr, "]#1 == false") {
+							h = true
+						}
+						if f.Expr == cmpFact("len("+cmap+")", "!=", "("+crecv+".threshold + 1)") || f.Expr == cmpFact("len("+cmap+")", "<", "("+crecv+".threshold + 1)") || f.Expr == cmpFact("len("+cmap+")", "<=", crecv+".threshold") {
+							e = true
+						}
+					}
+					allHas, allEnough = allHas && h, allEnough && e
+				}
+				if cnt > 0 {
+					okHas, okEnough = okHas || allHas, okEnough || allEnough
 				}
 			}
 			key := fnKey(a.fn) + "/map-update"
